@@ -5,8 +5,11 @@ Generic theorems (every `Crypto B`; [lawful] = for every `LawfulCrypto B`) about
 Token/Macaroon.lean: `mint`, `add`, `encodeState`, `bindTo`, `newCaveat3P`, `dischargeTicket`,
 `verify`, `verifyFlat`.  Proofs are in Lemmas/Legit.lean.  The wire half of the property (what a
 holder decodes from bytes is what the previous holder encoded; the verifier re-encodes what the
-signer encoded) is C11 (`token_wire_roundtrip`, `reencode_stable`); here a hop is the identity on
-the token state, and `Encode`/`String`/`Clone` are the state change `encodeState`.
+signer encoded) is C11 (`decode_encode_mac`, `decode_encode_cavs`, `reencode_fixed_point`,
+`reencode_stable`); here a hop is the identity on the token state, and `Encode`/`String`/`Clone`
+are the state change `encodeState`.  That a hop IS the identity on a legitimate token of the
+byte-level model, and `legit_verifies` through `Verify` on bytes, are `wire_hop`, `legit_hop`,
+`legit_attenuate_from_bytes`, `legit_verifies_bytes` of Props/Concrete.lean.
 Non-vacuity: examples over the symbolic instance `B = Term`, checked by the kernel.
 Tie: family `legit`.
 -/
